@@ -43,6 +43,7 @@ def op_strategy(resets=True, gens=True, burn=False, custom=False, queries=False)
     alts = [(8, prog), (7, deep), (8, near), (4, redundant), (3, flat), (3, rep), (1, noop)]
     if queries:
         alts.append((3, st.tuples(st.just("v"), st.integers(0, 59))))
+        alts.append((4, st.tuples(st.just("s"), st.integers(0, 23), BIG, SIDE, KS)))
     if custom:
         alts.append((4, st.tuples(st.just("q"), st.integers(0, 2), BIG, st.integers(0, 139), SIDE, KS)))
     if burn:
@@ -191,6 +192,8 @@ class CaseRunner:
                 chk.on_end(h, rep)
             if record:
                 rep.count("queries", getattr(h, "queries", 0))
+                rep.count("cross-state-probes", getattr(h, "cross_probes", 0))
+                rep.count("stale-probes-after-reset", getattr(h, "stale_probes", 0))
                 if getattr(h, "query_errors", 0):
                     rep.count("query-raised(not owned)", h.query_errors)
                 ncomp = h.max_depth
